@@ -37,6 +37,7 @@ fn dispatch(op: &str, args: &[Sexp]) -> String {
         "place.array" => crate::props::c09::op_array(args),
         "c20.abs2gds" => crate::props::c20::op_abs2gds(args),
         "c20.abs2lef" => crate::props::c20::op_abs2lef(args),
+        "c20.purphist" => crate::props::c20::op_purphist(args),
         "c20.dup" => crate::props::c20::op_dup(args),
         "c20.lefrt" => crate::props::c20::op_lefrt(args),
         "serde.gds" => crate::props::c18::op_gds(args),
